@@ -142,6 +142,8 @@ struct GroupSpec {
   std::string raw_fit;             // when non-empty: written verbatim INSTEAD of the fitting keywords derived from the flags above
   std::vector<V3> refpos;          // group-level refPositions
   std::vector<int> fit_atoms;      // fittingGroup (empty: the group itself)
+  std::vector<int> fit_extra;      // second atomNumbers keyword inside fittingGroup (duplicate-listing transformations)
+  std::vector<int> all_fit_atoms() const { std::vector<int> r = fit_atoms; r.insert(r.end(), fit_extra.begin(), fit_extra.end()); return r; }
   std::vector<int> all_atoms() const { std::vector<int> r = atoms; r.insert(r.end(), extra.begin(), extra.end()); return r; }
 };
 
@@ -224,7 +226,7 @@ static inline RGroup make_group(GroupSpec const &g, Sys const &s, bool dflt_fit,
   if (!g.has_fit && dflt_fit) { center = rotate = true; origin = false; ref = dflt_ref; }
   if (!center && !rotate) return r;
   std::vector<V3> fp;
-  if (g.fit_atoms.size()) { for (int a : dedupe(g.fit_atoms)) fp.push_back(s.x[a - 1]); }
+  if (g.fit_atoms.size()) { for (int a : dedupe(g.all_fit_atoms())) fp.push_back(s.x[a - 1]); }
   else fp = r.p;
   V3 refcog = mean(ref);
   std::vector<V3> refc;
